@@ -186,6 +186,11 @@ def make_walks(g, rng, n, maxlen=12, forced=True):
             walks.append(rgfa.random_walk(g, rng, 3, succ, start=(h.id, ">")))
     while len(walks) < n:
         r = rng.random()
+        if walks and r < 0.12:
+            # the same path again in a later record (other offsets / read): state carried between
+            # records (caches, shared tables) shows up only then
+            walks.append(list(rng.choice(walks)))
+            continue
         if r < 0.3:
             walks.append(rgfa.random_walk(g, rng, maxlen, succ, prefer=">"))
         elif r < 0.5:
